@@ -19,6 +19,6 @@ impl<'a> Template<'a> {
 //@ret r
 //@sig
     ensures r == self.literal_spec(),
-//@splice R10 arm#0 | mcall as_text
+//@splice R10 arm#0 | mcall#1
             ps if ps.len() == 1 => { let part = &ps[0]; $$ }
 //@end
